@@ -669,17 +669,20 @@ def judge(ctx, cfg, obs, label=""):
             srv = res.get("server", [])
             no_such_method = res.get("raised") == "AttributeError" and not srv and f"has no attribute '{snake(m)}'" in res.get("msg", "")
             if rnd == 3:
-                # ---- the request omitted: the signature's own default (`request: Optional[...] = None`)
+                # ---- the request omitted (`request: Optional[...] = None`): OUTSIDE the statement (it does not quantify over request
+                # forms, and without a request there is no name/resource field to route on) — informational only, nothing is demanded
                 if not want or m in own_here or no_such_method:
                     continue
                 if res.get("raised") == "AttributeError" and "'NoneType' object has no attribute" in res.get("msg", ""):
-                    ctx.fail("mixin-request-none:AttributeError", f"{kind} {snake(m)}() with the request omitted (its default, None) raises "
-                             f"AttributeError: {res.get('msg', '')[:80]} — no empty request is built, nothing is sent", p2)
-                elif "ok" not in res or len(srv) != 1 or srv[0]["path"] != f"/{API_OF[m]}/{m}":
-                    ctx.fail("mixin-request-none:other", f"{kind} {snake(m)}() with the request omitted: {res.get('raised')} {res.get('msg', '')[:120]} "
-                             f"server saw {[x['path'] for x in srv]}", p2)
-                elif srv[0]["requests"] and codec.decode(TYPES[m][0], srv[0]["requests"][0]) != {}:
-                    ctx.fail("mixin-request-none:other", f"{kind} {snake(m)}() sent a non-empty request", p2)
+                    what = "AttributeError-on-None"
+                elif "ok" in res and len(srv) == 1 and srv[0]["path"] == f"/{API_OF[m]}/{m}":
+                    what = "sent-empty-request"
+                else:
+                    what = f"other:{res.get('raised', 'ok')}"
+                ctx.count("request_omitted(informational)", f"{kind}:{what}")
+                ctx.notes.setdefault("request_omitted_note", "calling a mixin method without a request (its declared default None) is observed, "
+                                     "not judged: at HEAD every such call raises AttributeError ('NoneType' object has no attribute 'name'/'resource') "
+                                     "before anything is sent; see input_distribution['request_omitted(informational)']")
                 continue
             nrec = 2 if rnd == 2 else 1
             # ---- observed outcome, in the model's vocabulary
@@ -1028,7 +1031,7 @@ def replay(ctx, payload):
     judge(ctx, cfg, observe(cfg))
     want, rnd = payload.get("method"), payload.get("round")
     fails = [f for f in ctx.failures if (not want or f["payload"].get("method") in (None, want))
-             and (f["payload"].get("round") == rnd if rnd else f["payload"].get("round") != 3)]
+             and (not rnd or f["payload"].get("round") == rnd)]
     for f in fails:
         print("  failure:", f["key"], "-", f["what"])
     return not fails
